@@ -142,11 +142,13 @@ specs.register_kind("fn", lambda b: fn_sig(b)[0], lambda b: fn_sig(b)[1])
 
 def term_function(name, n_out):
     """ O10: box `name` with k outputs returns "name.j(x1,...)" strings: a
-    bare value for one output, () for none, a tuple otherwise. """
+    bare value for one output, () for none, a tuple otherwise. Boxes whose
+    name ends in "t" are written in the library's own `lambda *xs: tuple`
+    style (as its COPY and DISCARD) and return a 1-tuple for one output. """
     def function(*xs):
         terms = tuple("{}.{}({})".format(name, j, ",".join(map(str, xs)))
                       for j in range(n_out))
-        return terms[0] if n_out == 1 else terms
+        return terms[0] if n_out == 1 and not name.endswith("t") else terms
     function.__name__ = str(name)
     return function
 
@@ -227,8 +229,8 @@ def cart_layer(scan, max_width):
         off = draw(st.integers(0, len(scan) - n_in))
         room = max_width - len(scan) + n_in
         n_out = draw(st.integers(0, max(0, min(3, room))))
-        return {"k": "fn", "name": draw(st.sampled_from(["f", "g", "h"])),
-                "n": [n_in, n_out]}, off
+        return {"k": "fn", "name": draw(st.sampled_from(
+            ["f", "g", "h", "ft", "gt"])), "n": [n_in, n_out]}, off
     return strat()
 
 
